@@ -9,6 +9,21 @@ use super::{
     inline::{parse_condition, parse_inline_conditional, tokenize_inline_content},
 };
 
+/// The `else` branch marker of a conditional block, `- else:`, with whatever blanks
+/// the author left around `else` (`-else:`, `- else :`): what follows it on the line.
+fn else_marker_rest(trimmed: &str) -> Option<&str> {
+    else_header_rest(trimmed.strip_prefix('-')?)
+}
+
+/// The same, for a branch header that has lost its `-`.
+fn else_header_rest(header: &str) -> Option<&str> {
+    header
+        .trim_start()
+        .strip_prefix("else")?
+        .trim_start()
+        .strip_prefix(':')
+}
+
 pub fn looks_like_conditional(content: &str) -> bool {
     content.starts_with('{') && content.contains(':')
 }
@@ -70,7 +85,7 @@ pub fn parse_conditional(
         let first_body = lines[first_body_line_index].content.trim();
         if first_body.starts_with('-')
             && !first_body.starts_with("->")
-            && !first_body.starts_with("- else:")
+            && else_marker_rest(first_body).is_none()
         {
             // Check that the branch looks like "- case_expr: body" (has a colon after stripping -)
             let branch_content = first_body.trim_start_matches('-').trim_start();
@@ -164,17 +179,8 @@ pub fn parse_conditional(
             return Ok(nodes);
         }
 
-        if trimmed == "- else:" {
-            in_else = true;
-            *line_index += 1;
-            if body_line.had_newline {
-                when_false.push(Node::Newline);
-            }
-            continue;
-        }
-
-        // `- else: inline_content` on a single line
-        if let Some(else_content) = trimmed.strip_prefix("- else:") {
+        // `- else:`, alone or as `- else: inline_content` on a single line
+        if let Some(else_content) = else_marker_rest(trimmed) {
             in_else = true;
             *line_index += 1;
             let rest = else_content.trim();
@@ -313,7 +319,7 @@ pub fn parse_multi_branch_conditional(
             }
 
             let header = header.trim_start();
-            if let Some(rest) = header.strip_prefix("else:") {
+            if let Some(rest) = else_header_rest(header) {
                 current_condition = None;
                 if line.had_newline {
                     current_nodes.push(Node::Newline);
@@ -518,7 +524,7 @@ fn parse_switch_conditional(
             }
 
             let header = header.trim_start();
-            if let Some(rest) = header.strip_prefix("else:") {
+            if let Some(rest) = else_header_rest(header) {
                 current_case = None; // else branch
                 if line.had_newline {
                     current_nodes.push(Node::Newline);
